@@ -1049,7 +1049,7 @@ func (vc *VC) ret(x *ssa.Return) {
 			}
 		}
 		ce.err = nil
-		t := ce.evalTop(bc.Cond, true)
+		t, wfs := ce.evalWithSides(bc.Cond)
 		if ce.err != nil {
 			vc.unsupp("body_calls %q: %v", bc.Text, ce.err)
 			continue
@@ -1058,7 +1058,7 @@ func (vc *VC) ret(x *ssa.Return) {
 		if len(bc.Props) > 0 {
 			pr = bc.Props
 		}
-		vc.check("body-calls", token.NoPos, bc.Text, Eq(Or(reaches...), t.t), pr)
+		vc.check("body-calls", token.NoPos, bc.Text, Imp(wfs, Eq(Or(reaches...), t.t)), pr)
 	}
 	for _, c := range vc.con.Ensures {
 		if vc.con.Trusted != "" && !c.Auto {
